@@ -315,7 +315,7 @@ class Prob:
         return Prob(j["shr_domains"], j["dom_indices"], j["dom_offsets"], j["propagators"])
 
 
-CONS_ALGS = ["bound_consistency_algorithm", "shaving_consistency_algorithm"]
+CONS_ALGS = ["bound_consistency_algorithm", "shaving_consistency_algorithm", "golomb_consistency_algorithm"]  # the third only once registered (C20)
 VAR_HEURS = [
     "first_not_instantiated_var_heuristic",
     "smallest_domain_var_heuristic",
